@@ -13,6 +13,7 @@ class X(ExprMixin, CallMixin):
         self.contracts = contracts if contracts is not None else {}      # (Class, method) -> handler(X, recv, args, kwargs, st)
         self.ext = ext if ext is not None else {}                        # external functions / hooks by name
         self.ext_names = {}                                              # global names -> values (modules etc.)
+        self.iter_handlers = []                                          # [(predicate(iterable value, state), handler)]: loop contracts attached to WHAT is iterated, wherever the loop lives
         self.loop_handlers = {}                                          # (qual, ordinal) -> handler(X, node, st)
         self.opaque_ops, self.opaque_eq, self.opaque_truth = {}, {}, {}
         self.opaque_methods, self.opaque_call, self.opaque_isinstance = {}, {}, {}
@@ -194,6 +195,9 @@ class X(ExprMixin, CallMixin):
         if h is not None:
             h(self, s, st); return
         it = self.ev(s.iter, st)
+        for pred, hh in self.iter_handlers:
+            if pred(it, st):
+                hh(self, s, st); return
         items = self.iter_items(it, st, s)
         self.unrolled_loop(s, items, st)
 
